@@ -439,13 +439,14 @@ func runDriver(prop, tier string, seed int64, from, count, nworkers int, verif, 
 	}
 	sort.Strings(fps)
 	violations := 0
+	knownHits := map[string]int{}
 	var violationSummaries []any
 	for _, fp := range fps {
 		f := firstByFP[fp]
 		isKnown := false
 		for _, k := range known {
 			if k.Status == "open" && k.Property == prop && k.Fingerprint == fp {
-				fmt.Printf("KNOWN-FINDING: property=%s %s (%s)\n", prop, k.What, fp)
+				knownHits[fp]++
 				isKnown = true
 			}
 		}
@@ -473,6 +474,16 @@ func runDriver(prop, tier string, seed int64, from, count, nworkers int, verif, 
 		fmt.Printf("violation: %s\n  found at seed=%d index=%d, minimised with %d executions\n  %s\n", fp, seed, f.index, execs, shortText(mv.Detail, 600))
 		fmt.Printf("VIOLATION property=%s replay=%s\n", prop, path)
 		violationSummaries = append(violationSummaries, map[string]any{"fingerprint": fp, "seed": seed, "index": f.index, "replay": path, "detail": shortText(mv.Detail, 400)})
+	}
+	// every recorded (open) finding of this property is listed, whether or not this run reached it
+	for _, k := range known {
+		if k.Status == "open" && k.Property == prop {
+			reached := "reached in this run"
+			if knownHits[k.Fingerprint] == 0 {
+				reached = "not reached in this run"
+			}
+			fmt.Printf("KNOWN-FINDING: property=%s %s (%s; %s)\n", prop, k.What, k.Fingerprint, reached)
+		}
 	}
 	for _, fp := range sortedKeys(foreignByFP) {
 		fmt.Fprintf(os.Stderr, "note: foreign violation seen on the way (not reported under %s): %s ×%d\n", prop, fp, foreignByFP[fp])
